@@ -629,6 +629,15 @@ func mentionsYqType(P *Program, sig *types.Signature) bool {
 // a method that stores only into its own receiver, reached only with receivers allocated after the root call
 // began (x := NewT(); x.M()), changes no object that existed at the root call.
 func (G *reachGraph) reachWriter(roots []*ssa.Function, rootsExt bool, from *types.Package, key string) string {
+	// package-level variables are looked up by bare name (two packages sharing a name are merged)
+	for _, pre := range []string{"nonnil:var.", "var."} {
+		if strings.HasPrefix(key, pre) {
+			if rest := strings.TrimPrefix(key, pre); strings.Contains(rest, ".") {
+				key = pre + rest[strings.LastIndex(rest, ".")+1:]
+			}
+			break
+		}
+	}
 	writers := map[*ssa.Function]string{}
 	var keys []string
 	if strings.HasSuffix(key, ".*") {
@@ -668,13 +677,18 @@ func (G *reachGraph) reachWriter(roots []*ssa.Function, rootsExt bool, from *typ
 		parent[n] = p
 		queue = append(queue, n)
 	}
-	extDone := false
-	vis := G.visible(from)
+	// callbacks from library code: what a library can reach depends on the package that called it
+	extDone := map[*types.Package]bool{}
 	pushExt := func(p node) {
-		if extDone {
+		pkg := from
+		if p.f != nil {
+			pkg = funcPkg(p.f)
+		}
+		if extDone[pkg] {
 			return
 		}
-		extDone = true
+		extDone[pkg] = true
+		vis := G.visible(pkg)
 		for _, f := range G.addrTaken {
 			// a library can only call a function value whose type it can write down (reflection aside)
 			if (vis == nil || vis[funcPkg(f)]) && !mentionsYqType(G.P, f.Signature) {
